@@ -19,6 +19,16 @@ CLAIMS = {
         note='Trusts: CPython ast; name-based identification of residual norms as the operands compared with tol/atol; IEEE semantics of NaN comparisons; '
              'the three gates are the only functions that hand an iterate to the user (confirmed by reading; R14.5 guards the linear side).',
         design='DESIGN.md section 2, C14'),
+    'C15': dict(
+        technique='static analysis: guard-dominance over enumerated paths of assemble_csr, who-may-call on the backend gateway, sibling/contract agreement of the three backends, index-base typing (ast)',
+        text='Decides that the only entry to a matrix backend (assemble_csr) is dominated on every path by MatrixError guards for the twelve obligations that make a CSR triple '
+             'denote exactly one matrix (incl. 0 <= colidx < ncols and strictly increasing columns per row), that all constructors and pickling go through it, that the numpy/scipy/mkl '
+             'backends agree on assemble(data,rowptr,colidx,ncols) and on the export contract and that every consumer unpacks it in that order, constructor arities, the derived operators '
+             'and caches of the base class, and the one-based index discipline of the MKL backend (which cannot be executed in this sandbox). Necessary conditions of "faithful to the data / '
+             'ambiguous input rejected"; numerical agreement of products, transposes and sub-matrices is NOT decided.',
+        note='Trusts: CPython ast; the idiom table for guards (all(e), numpy.all(e), e.all(); shifted-slice and numpy.diff adjacent comparisons); role names of index arrays '
+             '(colidx/indices/cols vs rowptr/indptr). Unclassifiable constructs in the anchor give ANALYSIS-ERROR.',
+        design='DESIGN.md section 2, C15'),
 }
 
 NOT_APPLICABLE = {
